@@ -139,6 +139,15 @@ def execute(case, result):
     root.setLevel(1)
     names = [p.get("name") for kind, p in case["stack"] if kind == "Logger"] + [op[2] for op in case["ops"] if op[0] == "rename"]
     untouched = {logging.getLogger(n if n is not None else "RecPool").name: logging.getLogger(n if n is not None else "RecPool").level for n in names}
+    # the site has turned these loggers down (their own threshold above every level in use): no record is due, and nothing
+    # else changes - a write still goes through
+    muted = len(repr(case["ops"])) % 7 == 0 and "" not in names and None not in names
+    original_levels = {n: logging.getLogger(n).level for n in names if n}
+    if muted:
+        for n in names:
+            logging.getLogger(n).setLevel(2000)
+        untouched = {k: 2000 for k in untouched}
+        result.count("stacks_whose_loggers_are_turned_down_by_the_site")
     untouched["root"] = 1
     # where the handler sits: on the named loggers themselves, or - as most applications do it - on the root logger only,
     # which the records reach by propagation
@@ -193,7 +202,8 @@ def execute(case, result):
                     if kind == "Logger":
                         t = layer.target
                         pre = {"demand": t.demand, "supply": t.supply, "utilisation": t.utilisation, "allocation": t.allocation}
-                        expected.append((layer, set(vals), pre))
+                        if not muted:
+                            expected.append((layer, set(vals), pre))
                     elif kind == "Standardiser":
                         ref = Ref(p)
                         supply = pool.peek()["supply"]
@@ -308,6 +318,9 @@ def execute(case, result):
             lg.setLevel(level)
             lg.propagate = propagate
         root.setLevel(root_level)
+        if muted:
+            for n, level in original_levels.items():
+                logging.getLogger(n).setLevel(level)
     return problems[:4]
 
 
@@ -318,8 +331,15 @@ UNKNOWN = ["foo", "Value", "demands", "pool", "name", "level", "", "valu", "targ
 
 def gen_template(rnd, spec):
     parts, fields = [], []
+    odd = False
     for _ in range(rnd.randint(0, 4)):
-        if rnd.random() < 0.75:
+        if rnd.random() < 0.12:
+            # a known field with a conversion that does not fit every value (hex / octal / character): whether that alone is
+            # refused is not judged - an unknown field anywhere in the template still is
+            f = rnd.choice(["value", "demand", "supply", "target"])
+            conv = rnd.choice("xoc")
+            odd = True
+        elif rnd.random() < 0.75:
             f = rnd.choice(sorted(KNOWN))
             conv = rnd.choice(KNOWN[f])
         else:
@@ -328,7 +348,10 @@ def gen_template(rnd, spec):
         spec_ = rnd.choice(["", "", ".2", "8", "-6"]) if conv in "f" else rnd.choice(["", "", "10", "-4"]) if conv in "sr" else ""
         parts.append(rnd.choice(["", "x ", "demand=", "[", "100%% "]) + "%%(%s)%s%s" % (f, spec_, conv))
         fields.append(f)
-    return {"message": " ".join(parts) or "constant text", "fields": fields}
+    if odd and rnd.random() < 0.7:
+        parts.append("on %%(%s)s" % rnd.choice(UNKNOWN[:8]))  # ... followed by a field that does not exist
+        fields.append("?")
+    return {"message": " ".join(parts) or "constant text", "fields": fields, "odd": odd}
 
 
 def exec_template(case, result):
@@ -347,6 +370,9 @@ def exec_template(case, result):
         result.count("templates_unknown_field")
         if err is None:
             return [("template %r names unknown field(s) %r but was accepted" % (case["message"], unknown), None)]
+        return []
+    if case.get("odd"):
+        result.count("templates_with_a_conversion_that_does_not_fit_and_no_unknown_field")
         return []
     result.count("templates_known_fields")
     if err is not None:
@@ -398,6 +424,6 @@ def run_shard(spec):
 
 def finish(total, tier):
     for name in ("writes_checked", "records_checked", "transparent_writes_checked", "reads_checked", "loggers_renamed", "loggers_releveled",
-                 "states_utilisation_above_allocation", "states_with_fractions_that_are_not_floats", "stacks_whose_records_reach_the_handler_by_propagation", "stacks_whose_earlier_records_were_read_again_after_later_writes", "templates_unknown_field", "templates_known_fields"):
+                 "states_utilisation_above_allocation", "states_with_fractions_that_are_not_floats", "stacks_whose_loggers_are_turned_down_by_the_site", "stacks_whose_records_reach_the_handler_by_propagation", "stacks_whose_earlier_records_were_read_again_after_later_writes", "templates_unknown_field", "templates_known_fields"):
         if not total.counters.get(name) and not total.violations:
             total.inconc("monitor never observed: " + name)
